@@ -57,9 +57,12 @@ impl<T: RefCnt> HybridProtection<T> {
             // possibly destroyed) and fail.
             None
         } else {
-            // It changed in the meantime, but the debt for the previous pointer was already paid
-            // for by someone else, so we are fine using it.
-            Some(unsafe { Self::new(ptr, None) })
+            // It changed in the meantime and someone paid a debt for this address. We can't tell
+            // it was for the value we have read from this storage ‒ the address might have been
+            // reused by a value living in a different storage and paid by its writer. So we only
+            // release the reference we were given and take the slow path.
+            unsafe { T::dec(ptr) };
+            None
         }
     }
 
